@@ -158,8 +158,7 @@ func checkCDense(c CCase) *vk.Failure {
 	return nil
 }
 
-func TestCDense(t *testing.T) {
-	P := vk.Pick(4, 5)
+func cdenseCases(P int) []CCase {
 	L := P * P
 	recvs := denseWindows(0, P, P)
 	aliases := append([]Win(nil), recvs...)
@@ -194,6 +193,11 @@ func TestCDense(t *testing.T) {
 			}
 		}
 	}
+	return cases
+}
+
+func TestCDense(t *testing.T) {
+	cases := cdenseCases(vk.Pick(4, 5))
 	vk.Enumerate(t, "cdense", len(cases), func(i int) CCase {
 		c := cases[i]
 		c.Seed = uint64(i)*0x9e3779b97f4a7c15 + 7
